@@ -99,6 +99,10 @@ def run_case(c):
             low = np.tril(H, -2)
             if np.linalg.norm(low) > 1e-9 * sc:
                 fail('hessenberg', f'{tag}: H is not upper Hessenberg (|entries below the sub-diagonal| = {np.linalg.norm(low)})')
+        # everything that is returned is a number (also past the exhaustion point: "real coefficients", "orthonormal vectors")
+        outs = (alpha, beta, V) if c['kind'] == 'lanczos' else (H, V)
+        if not all(np.all(np.isfinite(np.asarray(x))) for x in outs):
+            fail('finite', f'{tag}: the returned arrays contain NaN/inf')
         # no premature exit while the Krylov space is not exhausted (only where the reference off-diagonal is clearly non-zero)
         if mp < min(m, kdim) and sub[mp - 1] > 1e-6 * sc:
             fail('premature_exit', f'{tag}: returned only {mp} vectors, Krylov dimension is {kdim}, reference off-diagonal {sub[mp-1]}')
